@@ -39,7 +39,7 @@ impl ProgProperty for C10 {
         for mode in [1u8, 2] {
             for b in [Backend::Bc, Backend::Jit] {
                 for lv in [l1, l2] {
-                    v.push(RunCfg { backend: b, level: lv, mode: Mode::Unsafe(lo, hi), fault: crate::exec::Fault::None, alloc: Alloc { mode, fail_zeroed_at: None, fail_any_at: None }, probes: if mode == 1 { PROBE_BC } else { 0 }, pre_tape: false });
+                    v.push(RunCfg { backend: b, level: lv, mode: Mode::Unsafe(lo, hi), fault: crate::exec::Fault::None, alloc: Alloc { mode, fail_zeroed_at: None, fail_any_at: None }, probes: if mode == 1 { PROBE_BC } else { 0 }, pre_tape: false, huge: None });
                 }
             }
         }
